@@ -20,7 +20,7 @@ ID = 'C07'
 LEVEL = 'model_checking'
 TECHNIQUE = ('bounded exhaustive enumeration of (program, node or slice, option setting) on the real copy/get/get_slice/cut code with '
              'invariants judged by CPython (re-parse, structure, token multisets) and a differential cut == copy + delete law')
-LEVEL_TEXT = ('every node and every slice of every list-like field of 46 programs x 9 option settings is copied and cut on the real '
+LEVEL_TEXT = ('every node and every slice of every list-like field of 150+ programs and 14 slice-rooted trees x 9 option settings is copied and cut on the real '
               'code; source tree identity, self-containedness, structural faithfulness, cut/copy/delete agreement and token/comment '
               'conservation are checked on every case')
 LEVEL_NOTE = ('trusted: CPython ast/tokenize; results whose root kind CPython cannot parse alone are re-parsed with pfst in the same '
